@@ -108,6 +108,16 @@ func c10Scenarios() []c10Scenario {
 			return e, func() *env.Call { return e.Do(env.Req{Path: env.PathLogin, Query: "id=" + url.QueryEscape(sc.S.ID)}) }
 		}
 	}
+	logoutP := func(binding, principal string) func(o env.Opts) (*env.Env, func() *env.Call) {
+		return func(o env.Opts) (*env.Env, func() *env.Call) {
+			e := mk(o)
+			rng := fixedRng()
+			l := conformantLogout(rng, stdSP(0))
+			l.NoNameID, l.OtherPrincipal = true, principal
+			s := ssoSend{Path: env.PathSLO, Binding: binding, XML: l.XML(rng), HasRelay: true, Relay: "MKrelay"}
+			return e, func() *env.Call { c, _ := s.do(e); return c }
+		}
+	}
 	logout := func(binding string) func(o env.Opts) (*env.Env, func() *env.Call) {
 		return func(o env.Opts) (*env.Env, func() *env.Call) {
 			e := mk(o)
@@ -166,6 +176,9 @@ func c10Scenarios() []c10Scenario {
 		{Name: "callback_body", run: callback(spsim.BindPost, "")},
 		{Name: "logout_post", run: logout("post")},
 		{Name: "logout_redirect", run: logout("redirect")},
+		{Name: "logout_post_encrypted_id", run: logoutP("post", "EncryptedID")},
+		{Name: "logout_redirect_base_id", run: logoutP("redirect", "BaseID")},
+		{Name: "logout_post_no_principal", run: logoutP("post", "")},
 		{Name: "attribute_query", run: query},
 		{Name: "metadata_unsigned", run: get(env.PathMetadata)},
 		{Name: "metadata_signed", Opts: env.Opts{MetaSigAlg: spsim.AlgRSASHA256}, run: get(env.PathMetadata)},
